@@ -1,4 +1,5 @@
 import SqlgrepModel.CodecExpr
+import SqlgrepModel.Drivers.F64Arith
 /- `eval ORACLES ENV EXPR` → outcome of the model evaluator. -/
 namespace Sqlgrep.Drivers.Eval
 open Sqlgrep
@@ -7,7 +8,11 @@ def handle (args : List Sexp) : String :=
   match args with
   | [o, env, e] =>
     match Oracles.ofSexp o, Env.ofSexp env, Expr.ofSexp e with
-    | some o, some env, some e => Outcome.toWire (eval o env e)
+    | some o, some env, some e =>
+      -- every REAL arithmetic node is also computed by the hardware (Drivers/F64Arith.lean)
+      match Drivers.F64Arith.crossCheckEval o env e with
+      | some mismatch => mismatch
+      | none => Outcome.toWire (eval o env e)
     | none, _, _ => "bad-oracles"
     | _, none, _ => "bad-env"
     | _, _, none => "bad-expr"
